@@ -66,74 +66,135 @@ Section Spec.
   Variable cname a : string.
   Notation res := (resolve (depth_fuel h) h cname).
 
+  (* the name resolves to a method that on() / after() registered for the action [a] *)
+  Definition handles (n o : string) (s : bool) : Prop :=
+    exists att, res n = Some (o, att) /\ on_of att = Some (a, s).
+  Definition follows (n o : string) : Prop :=
+    exists att, res n = Some (o, att) /\ after_of att = Some a.
+
+  Lemma visit_e_on e n :
+    e_on (visit h cname a e n) =
+    match res n with
+    | Some (o, att) => match on_of att with
+                       | Some (a', s) => if String.eqb a' a then Some (o, n, s) else e_on e
+                       | None => e_on e
+                       end
+    | None => e_on e
+    end.
+  Proof.
+    unfold visit. destruct (res n) as [[o att]|]; [|reflexivity].
+    destruct (on_of att) as [[a' s]|]; [destruct (String.eqb a' a)|];
+      (destruct (after_of att) as [a2|]; [destruct (String.eqb a2 a)|]; reflexivity).
+  Qed.
+
+  Lemma visit_e_after e n :
+    e_after (visit h cname a e n) =
+    match res n with
+    | Some (o, att) => match after_of att with
+                       | Some a' => if String.eqb a' a then Some (o, n) else e_after e
+                       | None => e_after e
+                       end
+    | None => e_after e
+    end.
+  Proof.
+    unfold visit. destruct (res n) as [[o att]|]; [|reflexivity].
+    destruct (on_of att) as [[a' s]|]; [destruct (String.eqb a' a)|];
+      (destruct (after_of att) as [a2|]; [destruct (String.eqb a2 a)|]; reflexivity).
+  Qed.
+
   (* folding [visit] over names none of which is an on-handler for [a] leaves the on-entry alone *)
   Lemma fold_visit_on_untouched l e :
-    (forall n, In n l -> forall o s, res n <> Some (o, AOn a s)) ->
+    (forall n, In n l -> forall o s, ~ handles n o s) ->
     e_on (fold_left (visit h cname a) l e) = e_on e.
   Proof.
     revert e. induction l as [|n r IH]; intros e H; simpl; [reflexivity|].
     rewrite IH by (intros n' Hn'; apply H; right; exact Hn').
-    unfold visit. destruct (res n) as [[o att]|] eqn:E; [|reflexivity].
-    destruct att as [a' s| a' | |]; try reflexivity.
-    - destruct (String.eqb a' a) eqn:Ea; [|reflexivity]. apply String.eqb_eq in Ea. subst a'.
-      exfalso. eapply (H n (or_introl eq_refl)). exact E.
-    - destruct (String.eqb a' a); reflexivity.
+    rewrite visit_e_on. destruct (res n) as [[o att]|] eqn:E; [|reflexivity].
+    destruct (on_of att) as [[a' s]|] eqn:Eo; [|reflexivity].
+    destruct (String.eqb a' a) eqn:Ea; [|reflexivity]. apply String.eqb_eq in Ea. subst a'.
+    exfalso. apply (H n (or_introl eq_refl) o s). exists att. split; [exact E | exact Eo].
   Qed.
 
   Lemma fold_visit_after_untouched l e :
-    (forall n, In n l -> forall o, res n <> Some (o, AAfter a)) ->
+    (forall n, In n l -> forall o, ~ follows n o) ->
     e_after (fold_left (visit h cname a) l e) = e_after e.
   Proof.
     revert e. induction l as [|n r IH]; intros e H; simpl; [reflexivity|].
     rewrite IH by (intros n' Hn'; apply H; right; exact Hn').
-    unfold visit. destruct (res n) as [[o att]|] eqn:E; [|reflexivity].
-    destruct att as [a' s| a' | |]; try reflexivity.
-    - destruct (String.eqb a' a); reflexivity.
-    - destruct (String.eqb a' a) eqn:Ea; [|reflexivity]. apply String.eqb_eq in Ea. subst a'.
-      exfalso. eapply (H n (or_introl eq_refl)). exact E.
+    rewrite visit_e_after. destruct (res n) as [[o att]|] eqn:E; [|reflexivity].
+    destruct (after_of att) as [a'|] eqn:Eo; [|reflexivity].
+    destruct (String.eqb a' a) eqn:Ea; [|reflexivity]. apply String.eqb_eq in Ea. subst a'.
+    exfalso. apply (H n (or_introl eq_refl) o). exists att. split; [exact E | exact Eo].
   Qed.
 
-  (* the method decorated with on() for [a] that lookup on the instance resolves to -- unique *)
-  Theorem route_on_is_resolved n o s :
-    res n = Some (o, AOn a s) ->
-    (forall n' o' s', res n' = Some (o', AOn a s') -> n' = n) ->
+  Lemma on_of_decorated att x : on_of att = Some x -> decorated att = true.
+  Proof. destruct att; simpl; congruence. Qed.
+  Lemma after_of_decorated att x : after_of att = Some x -> decorated att = true.
+  Proof. destruct att; simpl; congruence. Qed.
+
+  (* the method registered with on() for [a] that lookup on the instance resolves to -- unique *)
+  Theorem route_on_handles n o s :
+    handles n o s ->
+    (forall n' o' s', handles n' o' s' -> n' = n) ->
     e_on (route_entry h cname a) = Some (o, n, s).
   Proof.
-    intros Hn Huniq. unfold route_entry.
-    assert (Hin : In n (routables h)) by (eapply resolved_in_routables; [exact Hn | reflexivity]).
+    intros [att [Hn Ho]] Huniq. unfold route_entry.
+    assert (Hin : In n (routables h)) by (eapply resolved_in_routables; [exact Hn | eapply on_of_decorated; exact Ho]).
     apply in_split in Hin. destruct Hin as [l1 [l2 Hl]]. rewrite Hl.
     rewrite fold_left_app. simpl.
     rewrite fold_visit_on_untouched.
-    - unfold visit. rewrite Hn, String.eqb_refl. reflexivity.
+    - rewrite visit_e_on, Hn, Ho, String.eqb_refl. reflexivity.
     - intros n' Hn' o' s' E. pose proof (Huniq _ _ _ E) as ->.
       pose proof (routables_NoDup h) as ND. rewrite Hl in ND. apply NoDup_remove_2 in ND.
       apply ND. apply in_or_app. right. exact Hn'.
   Qed.
 
-  Theorem route_on_absent :
-    (forall n o s, res n <> Some (o, AOn a s)) -> e_on (route_entry h cname a) = None.
+  Theorem route_on_none :
+    (forall n o s, ~ handles n o s) -> e_on (route_entry h cname a) = None.
   Proof. intros H. unfold route_entry. rewrite fold_visit_on_untouched; [reflexivity|]. intros n _. apply H. Qed.
 
-  Theorem route_after_is_resolved n o :
-    res n = Some (o, AAfter a) ->
-    (forall n' o', res n' = Some (o', AAfter a) -> n' = n) ->
+  Theorem route_after_follows n o :
+    follows n o ->
+    (forall n' o', follows n' o' -> n' = n) ->
     e_after (route_entry h cname a) = Some (o, n).
   Proof.
-    intros Hn Huniq. unfold route_entry.
-    assert (Hin : In n (routables h)) by (eapply resolved_in_routables; [exact Hn | reflexivity]).
+    intros [att [Hn Ho]] Huniq. unfold route_entry.
+    assert (Hin : In n (routables h)) by (eapply resolved_in_routables; [exact Hn | eapply after_of_decorated; exact Ho]).
     apply in_split in Hin. destruct Hin as [l1 [l2 Hl]]. rewrite Hl.
     rewrite fold_left_app. simpl.
     rewrite fold_visit_after_untouched.
-    - unfold visit. rewrite Hn, String.eqb_refl. reflexivity.
+    - rewrite visit_e_after, Hn, Ho, String.eqb_refl. reflexivity.
     - intros n' Hn' o' E. pose proof (Huniq _ _ E) as ->.
       pose proof (routables_NoDup h) as ND. rewrite Hl in ND. apply NoDup_remove_2 in ND.
       apply ND. apply in_or_app. right. exact Hn'.
   Qed.
 
-  Theorem route_after_absent :
-    (forall n o, res n <> Some (o, AAfter a)) -> e_after (route_entry h cname a) = None.
+  Theorem route_after_none :
+    (forall n o, ~ follows n o) -> e_after (route_entry h cname a) = None.
   Proof. intros H. unfold route_entry. rewrite fold_visit_after_untouched; [reflexivity|]. intros n _. apply H. Qed.
 End Spec.
+
+Lemma handles_iff h cname a n o s :
+  handles h cname a n o s <->
+  (resolve (depth_fuel h) h cname n = Some (o, AOn a s) \/
+   exists a2, resolve (depth_fuel h) h cname n = Some (o, ABoth a s a2)).
+Proof.
+  unfold handles. split.
+  - intros [att [H1 H2]]. destruct att; simpl in H2; try discriminate; injection H2 as -> ->;
+      [left; exact H1 | right; eexists; exact H1].
+  - intros [H|[a2 H]]; eexists; (split; [exact H | reflexivity]).
+Qed.
+
+Lemma follows_iff h cname a n o :
+  follows h cname a n o <->
+  (resolve (depth_fuel h) h cname n = Some (o, AAfter a) \/
+   exists a1 s, resolve (depth_fuel h) h cname n = Some (o, ABoth a1 s a)).
+Proof.
+  unfold follows. split.
+  - intros [att [H1 H2]]. destruct att; simpl in H2; try discriminate; injection H2 as ->;
+      [left; exact H1 | right; do 2 eexists; exact H1].
+  - intros [H|[a1 [s H]]]; eexists; (split; [exact H | reflexivity]).
+Qed.
 
 Theorem no_getters h cname : getters_evaluated h cname = [].
 Proof.
